@@ -1,0 +1,75 @@
+//go:build verif
+
+package inactivity
+
+import (
+	"github.com/ipfs/go-log/v2"
+
+	"github.com/keep-network/keep-core/pkg/protocol/group"
+	"github.com/keep-network/keep-core/pkg/protocol/state"
+)
+
+// Verification hooks for properties C12 and C13 (thin wrappers, no behaviour
+// of their own): build the claim signing state the way PublishClaim does and
+// build a claim signature message.
+
+// VerifC12Probe holds the claim signing state, the message history it writes
+// to and the group of its member.
+type VerifC12Probe struct {
+	State state.AsyncState
+	Base  *state.BaseAsyncState
+	Group *group.Group
+}
+
+// VerifC12NewClaimSigningProbe builds the claimSigningState.
+func VerifC12NewClaimSigningProbe(
+	logger log.StandardLogger,
+	memberIndex group.MemberIndex,
+	groupSize int,
+	dishonestThreshold int,
+	membershipValidator *group.MembershipValidator,
+	sessionID string,
+	claimSigner ClaimSigner,
+	claimSubmitter ClaimSubmitter,
+	claim *ClaimPreimage,
+) *VerifC12Probe {
+	base := state.NewBaseAsyncState()
+	member := newSigningMember(
+		logger,
+		memberIndex,
+		groupSize,
+		dishonestThreshold,
+		membershipValidator,
+		sessionID,
+	)
+	st := &claimSigningState{
+		BaseAsyncState: base,
+		claimSigner:    claimSigner,
+		claimSubmitter: claimSubmitter,
+		member:         member,
+		claim:          claim,
+	}
+	return &VerifC12Probe{State: st, Base: base, Group: member.group}
+}
+
+// VerifC12NewClaimSignatureMessage builds a claimSignatureMessage.
+func VerifC12NewClaimSignatureMessage(
+	senderID group.MemberIndex,
+	claimHash ClaimHash,
+	signature []byte,
+	publicKey []byte,
+	sessionID string,
+) interface{} {
+	return &claimSignatureMessage{
+		senderID:  senderID,
+		claimHash: claimHash,
+		signature: signature,
+		publicKey: publicKey,
+		sessionID: sessionID,
+	}
+}
+
+// VerifC12MessageType returns the Type() of a claimSignatureMessage.
+func VerifC12MessageType() string {
+	return (&claimSignatureMessage{}).Type()
+}
